@@ -250,6 +250,18 @@ example : exampleBP.resolveWaits = .ok [2, 31/10, 1] ∧ (2 : Rat) * 10 = (20 : 
 example : (forgeBP exampleBP).toOption.map (fun f => starts (f.blocks.map Blk.len) 0) = some [0, 20, 51] := by
   decide +kernel
 
+/-- the "not at a rounding tie" hypothesis on `t·SR` cannot be dropped: with 3 samples in front and
+    `t·SR = 10.5` the wait gets `round(7.5) = 8` samples, so the next segment starts at sample 11,
+    while `round(t·SR) = round(10.5) = 10` (round-half-even, as Python's `round`) -/
+def tieBP : BP :=
+  { segs := [ { name := "ramp", fn := Fn.rampFn, args := [.num 0, .num 1], dur := .num (3/10) },
+              { name := "waituntil", fn := Fn.waitSpecial, args := [.num (21/20)], dur := .none },
+              { name := "ramp2", fn := Fn.rampFn, args := [.num 1, .num 0], dur := .num 1 } ],
+    SR := .num 10 }
+
+example : (forgeBP tieBP).toOption.map (fun f => starts (f.blocks.map Blk.len) 0) = some [0, 3, 11] ∧
+    rhe ((21/20 : Rat) * 10) = 10 := by decide +kernel
+
 /-- `wait_end_to_end` with the alignment hypothesis put on the *segments*, for a prefix of
     ordinary segments (no earlier waituntil) whose stored durations are whole numbers of samples. -/
 theorem wait_end_to_end_plain (b : BP) (f : Forged) (h : forgeBP b = .ok f)
